@@ -16,6 +16,12 @@ CHECKS = {
  "C19": ("exploration", "runtime monitoring: adversarially related transcript pairs judged against an independent canonical encoding; commitment alteration lattice",
          "Seeded generation of typed item sequences and related pairs (boundary/domain shifts, split/merge, retyping, permutation, framing pasted as bytes crafted against weakened framings); a digest collision between sequences whose canonical encodings differ is the violation; commitments must refuse every altered tuple/decommitment.",
          "Abstract identity of items computed by harness code; blake3 collision resistance.", "5/C19"),
+ "C07": ("exploration", "runtime monitoring: stateless DFS with sleep sets over all causally permitted delivery interleavings of a deterministic protocol run by the real MultiHandler, plus sampled adversarial schedules on the real protocols under party-keyed deterministic randomness",
+         "Exhaustive for n=2 (all rounds, plus one duplicate at every later position) and n=3 rounds 2-3 (thorough; budgeted in quick); sampled random/reverse/starve schedules with duplicates, stale replays and foreign-session injections for FROST, Taproot, Doerner and CMP sign; results must be bit-identical to the in-order run whenever a party's draw sequence is identical, correct and agreed otherwise.",
+         "Sleep-set reduction assumes deliveries to different parties commute (no shared objects); exhaustive flag only when all DFS sub-trees completed.", "5/C07"),
+ "C09": ("fault_enumeration", "runtime monitoring: session-tag lattice, cross-session replay at every delivery step, and echo-consistent transfer of proof/commitment-carrying messages between senders and sessions",
+         "Pairs of session descriptions differing in exactly one parameter (incl. adversarial identifier families) must have different tags; every message of a session A is offered to every party of a session B after every step (CanAccept false; forced delivery harmless); a corrupted party's proof-carrying messages are replaced by another party's or by its own from another session and must be refused at the round that verifies them.",
+         "Only secp256k1 exists (curve dimension degenerate); tags read by reflection from the round object.", "5/C09"),
  "C08": ("exploration", "runtime monitoring: seeded operation histories through real handlers with per-step oracles (key unchanged, material consistent, shares changed, mixed epochs useless, stale signer => no signature)",
          "Histories over {refresh, serialise+restore, derive, sign} for FROST, Taproot, Doerner and CMP on (n,t) lattices; after each refresh the oracles of the statement are evaluated, including every enumerated mixed-epoch reconstruction set and sessions with 1..t stale signers.",
          "Epoch snapshots through the documented encoders; t=0 is exempt from 'share changed' (mathematically impossible).", "5/C08"),
